@@ -20,6 +20,7 @@ DOC = {
  "C01.R3": "start: one pre_start race, not in a cycle, behind the `status != Unstarted -> Err` gate; the loop task is spawned only on the Ok(Ok(Ok(state))) edge",
  "C01.R4": "processing loop: post_start raced once, not in a cycle, before the message-loop future exists; set_status(Running) and the loop only after post_start's Ok edges (both `?`)",
  "C01.R5": "post_stop raced once, not in a cycle, only after the loop future completed, on the Ok edges of the loop result and on the false edge of its was_killed flag; the flag and exit test originate from the step result's fields",
+ "C01.R9": "= C03.R4: outcome table of the message step in both runtimes -- a handler (message or supervision) that returned Err leaves through the Err exit, a race lost to the signal yields the `killed` result, only Stop/Drained yield the graceful result: `post_stop only on a graceful exit, never after a kill or a handler error` (C01.R5 decides what the loop does with the flag, this rule who sets it)",
  "C01.R7": "(+ C03.R7/R8: no suspension between pick and handler start; kill_and_wait really kills) = C03.R1 + C03.R2 + C03.R6: `post_stop never after a kill` needs the kill signal to outrank stop in the listen and the callback in the race (signal polled first, biased) and every kill() to be delivered whatever the status",
  "C01.R8": "hook adapters (blanket `impl ThreadLocalActor for T: Actor`) delegate each hook to the same-named hook of the wrapped actor, once, unconditionally",
  "C01.R6": "Send and thread-local runtimes agree on the lifecycle skeleton (sibling cross-check)",
@@ -28,6 +29,10 @@ DOC = {
 
 def r1(run, db):
     c03.r3(run, db)
+
+
+def r9(run, db):
+    c03.r4(run, db)
 
 
 def r7(run, db):
@@ -351,6 +356,7 @@ RULES = [
     {"id": "C01.R6", "fn": r6, "quick": Q, "thorough": TH},
     {"id": "C01.R7", "fn": r7, "quick": Q + ["astd"], "thorough": TH},
     {"id": "C01.R8", "fn": r8, "quick": Q, "thorough": TH},
+    {"id": "C01.R9", "fn": r9, "quick": Q, "thorough": TH},
 ]
 from .positive import control
 RULES.append({"id": "C01.P", "fn": control('k14'), "quick": ["pos"], "thorough": ["pos"]})
